@@ -19,6 +19,7 @@ RULE = ("seeded histories (50 steps quick / 400 thorough) of Symbol, IndexedSymb
         "differentiated and solved and compared with plainly named SymPy twins; print_expression/code_str/latex_str never "
         "show SYM/FUN/QTY/SYS names. Plus the id trace of a full catalogue import. non-trivial = history with at least one "
         "display-name collision; distinct = (history, step).")
+RULE = RULE + " Also: every object kind printed on its own, in a list / tuple, as an indexed element, as the base of an element and as a factor by all three printers; the id trace (strictly increasing per prefix, never reissued) also while the repository's tests run."
 ASSUMPTIONS = ["IndexedSymbol(<SymPy symbol>) deliberately reuses the given name (SymPy internals) and is excluded",
                "Symbolic wrappers (Average, FiniteDifference, differentials) are observed and reported separately"]
 N = {"quick": dict(histories=208, steps=50), "thorough": dict(histories=3008, steps=400)}
